@@ -9,7 +9,7 @@ import numpy as np
 from .. import vlib
 from ..vlib import f2bits, fl, il
 
-LEAN_TARGETS = ["SkaModel.Props.C18"]
+LEAN_TARGETS = ["SkaModel.Props.C18", "SkaModel.Props.C18choice"]
 LEVEL = "proof"
 RULE = (
     "cases: calls of rand_argmax / rand_argmin (1-d, 2-d with axis None/0/1) and simple_batch (max / proportional, "
@@ -63,6 +63,36 @@ class SpyRS(np.random.RandomState):
 
     def choice(self, a, size=None, replace=True, p=None):
         return self._wrap("choice", super().choice, a, size=size, replace=replace, p=p)
+
+
+class ChoiceSpyRS(SpyRS):
+    """Additionally records, for every outermost `choice(…, p=…)` call, the weight vector and the uniform numbers
+    numpy draws inside it (`choice` calls `self.random_sample`, which resolves to the override below)."""
+
+    def __init__(self, seed):
+        super().__init__(seed)
+        self.choice_calls = []
+        self._cur = None
+
+    def random_sample(self, size=None):
+        r = super().random_sample(size)
+        if self._cur is not None:
+            self._cur["inner"].append(np.array(r, dtype=float).ravel().copy())
+        return r
+
+    def choice(self, a, size=None, replace=True, p=None):
+        outer = self._cur is None and self._depth == 0
+        if outer:
+            self._cur = dict(a=np.array(a).copy(), size=size, replace=replace, p=None if p is None else np.array(p, dtype=float).copy(), inner=[])
+        try:
+            r = super().choice(a, size=size, replace=replace, p=p)
+        finally:
+            cur, self._cur = (self._cur, None) if outer else (None, self._cur)
+        if outer:
+            cur["out"] = np.array(r).copy()
+            self.choice_calls.append(cur)
+        return r
+
 
 
 def err_enum(e):
@@ -184,7 +214,7 @@ def case_simple_batch(ctx, lines, expect, u, b, method, seed, int_seed=False):
     from skactiveml.utils import simple_batch
 
     u = np.asarray(u, dtype=float)
-    rs = SpyRS(seed)
+    rs = ChoiceSpyRS(seed)
     layout = (LAYOUTS_1D if u.ndim == 1 else LAYOUTS_2D)[seed % 5]
     case = dict(fn="simple_batch", u=u, batch_size=b, method=method, seed=seed, layout=layout)
     try:
@@ -226,6 +256,13 @@ def case_simple_batch(ctx, lines, expect, u, b, method, seed, int_seed=False):
     ctx.count(f"layout_{layout}")
     if impl_err is not None:
         return
+    # numpy's choice without replacement itself (weights and per-round uniform draws captured inside the call)
+    for c in rs.choice_calls:
+        if c["p"] is not None and c["replace"] is False and "out" in c and np.ndim(c["a"]) == 0:
+            size = int(np.prod(c["size"])) if c["size"] is not None else 1
+            lines.append(" ".join(f"choicenr {size} {fl(c['p'])} {len(c['inner'])} ".split() + [fl(r) for r in c["inner"]]))
+            expect.append(("picks " + " ".join(str(int(x)) for x in np.asarray(c["out"]).ravel()) + " | enough=1", dict(case, sub="choice-without-replacement")))
+            ctx.count(f"choice_without_replacement_rounds_{min(len(c['inner']), 4)}")
     # property oracle -----------------------------------------------------------------------
     k = min(b, int(np.sum(~np.isnan(flat))))
     bad = None
